@@ -121,4 +121,6 @@ def replay(ctx, data):
     if data.get('mixed'):
         bad = mixed_terminators([bytes.fromhex(h) for h in data['lines']], data.get('tbq', False))
         return bad[0][3] if bad else None
+    if 'frontend' not in data and 'entry' in data:
+        return rdr.replay(ctx, data)          # a case of the reader-level part (tools/props/C05_readers.py check_sequence)
     return sc.replay_case(ctx, data, WANT)
